@@ -258,5 +258,5 @@ WithdrawnWasWithdrawable(s) ==
 \* the committee never commits more than its available funds: what is owed
 \* to live proposals is covered by the bookkeeping, and the bookkeeping is
 \* within the funds of the term
-CommittedWithinAvailable(s) == OutstandingAll(s) <= s.used /\ s.used <= s.stage
+CommittedWithinAvailable(s) == 0 <= s.used /\ OutstandingAll(s) <= s.used /\ s.used <= s.stage
 =============================================================================
